@@ -267,6 +267,29 @@ pub mod kernels {
         reach!(!r.is_empty(), "reach.nonempty");
     }
 
+    /// two triangles sharing the edge a-b (c and d on opposite sides), all vertices SYMBOLIC in [0,3]^2:
+    /// every pixel of the shared Bresenham edge (rasterised from the (y, x)-sorted end points) is in both
+    /// scanlines, and lattice points on the shared segment are covered by at least one triangle
+    #[cfg_attr(kani, kani::proof, kani::unwind(6))]
+    pub fn c19_q_k_tri_shared_edge_b2() {
+        let p = || Point::new(small_u(2) as i32, small_u(2) as i32);
+        let (a, b, c, d) = (p(), p(), p(), p());
+        let (sc, sd) = (cross(a, b, c), cross(a, b, d));
+        kani::assume((sc > 0 && sd < 0) || (sc < 0 && sd > 0));
+        let q = p();
+        note!("a", a); note!("b", b); note!("c", c); note!("d", d); note!("q", q);
+        let r1 = hk::triangle_scanline_at(&Triangle::new(a, b, c), q.y);
+        let r2 = hk::triangle_scanline_at(&Triangle::new(b, a, d), q.y);
+        note!("row_t1", r1); note!("row_t2", r2);
+        let (e0, e1) = if (a.y, a.x) <= (b.y, b.x) { (a, b) } else { (b, a) };
+        let mut on_edge = false;
+        for e in Line::new(e0, e1).points() { if e == q { on_edge = true; } }
+        if on_edge { check!(r1.contains(&q.x) && r2.contains(&q.x), "C19.shared_edge_pixels"); }
+        let on_segment = cross(a, b, q) == 0 && in_rect(&Rectangle::with_corners(a, b), q);
+        if on_segment { check!(r1.contains(&q.x) || r2.contains(&q.x), "C19.no_gap"); }
+        reach!(on_edge && q != a && q != b, "reach.inner_edge_pixel");
+    }
+
     /// minimal form for the quick tier: one kernel call vs contains(), symbolic vertices in [0,3]^2
     #[cfg_attr(kani, kani::proof, kani::unwind(6))]
     pub fn c05_q_k_tri_row_eq_b2() {
